@@ -284,6 +284,26 @@ def run_case(desc, ctx):
         if not any(refv[v] == s for v in ob):
             ctx.violation("disk", "singularities", "singularity_not_on_border", "a singular vertex has no copy on the border of the cut mesh", vertex=s, kind=kind)
             return
+    # 5. the exported cut graph (polyline) is the reported cut edges, placed at the original positions, with the singular vertices selected
+    ok, cg = ctx.call("cut_graph", lambda: cutter.cut_graph, monitor="cutgraph", abort=False)
+    if ok and cg is not None:
+        ctx.obs("cutgraph", "export")
+        try:
+            gV = build.vertices_array(cg)
+            gE = build.edges_list(cg)
+            sel = cg.vertices.get_attribute("selection")
+            selected = {tuple(np.asarray(gV[i], float)) for i in range(len(gV)) if bool(sel[i])}
+            seg = sorted(tuple(sorted((tuple(gV[a]), tuple(gV[b])))) for a, b in gE)
+        except Exception as e:
+            seg = None
+            ctx.violation("cutgraph", "export", "malformed_cut_graph", "cut_graph cannot be read: %s" % type(e).__name__)
+        if seg is not None:
+            Vf = np.asarray(V, float)
+            want = sorted(tuple(sorted((tuple(Vf[edges[e][0]]), tuple(Vf[edges[e][1]])))) for e in cut_edges)
+            ctx.check(seg == want, "cutgraph", "export", "exported_graph_is_not_the_cut_edges", "cut_graph does not consist of exactly the reported cut edges at their positions",
+                      n=len(seg), want=len(want))
+            ctx.check(selected == {tuple(Vf[s_]) for s_ in singus}, "cutgraph", "export", "selection_is_not_the_singular_vertices",
+                      "the 'selection' attribute of cut_graph does not mark exactly the singular vertices", n=len(selected), want=len(singus))
     if len(F) <= 8:
         ctx.sample({"faces": F, "singularities": singus, "cut_edges": sorted(edges[e] for e in cut_edges), "cut_mesh_faces": Fo})
     # history: a second cut of the SAME mesh object (same feature detector) with another singularity set must again give a disk
